@@ -64,7 +64,16 @@ def gen_scenario(rng, parallel=False, small=False):
         else:
             ss = [s['name'] for s in suites if rng.random() < 0.6] or [suites[0]['name']]
         pairs.append([e['name'], ss])
-    sc = {'executors': executors, 'suites': suites, 'pairs': pairs, 'results': [],
+    more = []
+    if rng.random() < 0.45:
+        for _x in range(rng.choice([1, 1, 2])):
+            ps = []
+            for e in executors:
+                if rng.random() < 0.7:
+                    ss = [s['name'] for s in suites if rng.random() < 0.7] or [rng.choice(suites)['name']]
+                    ps.append([e['name'], ss])
+            more.append(ps or [[executors[-1]['name'], [suites[-1]['name']]]])
+    sc = {'executors': executors, 'suites': suites, 'pairs': pairs, 'more_experiments': more, 'results': [],
           'flags': [], 'sched': rng.choice(['batch', 'round-robin', 'random']), 'cpu': 1,
           'choices': [rng.randrange(0, 1000) for _ in range(64)], 'picks': None,
           'pick_seed': rng.randrange(1 << 30)}
@@ -124,15 +133,23 @@ def find(lst, name):
     raise KeyError(name)
 
 
+def experiments_of(sc):
+    """the experiments of the scenario: lists of [executor, [suites]]; all are executed in one session"""
+    return [sc['pairs']] + list(sc.get('more_experiments') or [])
+
+
 def all_pairs(sc):
-    """(executor, suite, bench) triples of the scenario"""
-    out = []
-    for en, ss in sc['pairs']:
-        e = find(sc['executors'], en)
-        for sn in ss:
-            s = find(sc['suites'], sn)
-            for b in s['benchmarks']:
-                out.append((e, s, b))
+    """(executor, suite, bench) triples of the scenario (a run named by several experiments is one run)"""
+    out, seen = [], set()
+    for pairs in experiments_of(sc):
+        for en, ss in pairs:
+            e = find(sc['executors'], en)
+            for sn in ss:
+                s = find(sc['suites'], sn)
+                for b in s['benchmarks']:
+                    if (en, sn, b) not in seen:
+                        seen.add((en, sn, b))
+                        out.append((e, s, b))
     return out
 
 
@@ -183,9 +200,10 @@ def make_config(sc):
         if e['env'] is not None:
             d['env'] = dict(e['env'])
         executors[e['name']] = d
-    executions = [{en: {'suites': list(ss)}} for en, ss in sc['pairs']]
-    return {'benchmark_suites': suites, 'executors': executors,
-            'experiments': {'X': {'executions': executions}}}
+    experiments = {}
+    for i, pairs in enumerate(experiments_of(sc)):
+        experiments['X' if i == 0 else 'X%d' % (i + 1)] = {'executions': [{en: {'suites': list(ss)}} for en, ss in pairs]}
+    return {'benchmark_suites': suites, 'executors': executors, 'experiments': experiments}
 
 
 # ------------------------------------------------------------------ implementation side
@@ -437,6 +455,7 @@ def check_batch(ck, scenarios, base_idx=0, search=True):
         inp['picks'] = bs.picks if bs.threads else sc.get('picks')
         parallel = bs.threads > 0
         ck.count('sched:' + ('parallel/' if parallel else '') + sc['sched'])
+        ck.count('experiments:%d' % len(experiments_of(sc)))
         if sc.get('conf_subdir'):
             ck.count('config-file-outside-cwd')
         if sc.get('prior'):
@@ -612,6 +631,25 @@ def pattern_scenarios():
             sc['flags'] = flags
             sc['results'] = [{'script': b[0], 'dir': b[1], 'res': 'ok'} for b in builds]
             out.append(sc)
+    # the same scenarios with the runs spread over two experiments of one session: builds shared
+    # across experiments must still run once per session
+    multi = []
+    for sc in out:
+        if sc['flags'] or sc.get('prior') or sc['sched'] != 'batch':
+            continue
+        es = [e['name'] for e in sc['executors']]
+        ss = [s['name'] for s in sc['suites']]
+        v = json.loads(json.dumps(sc))
+        if len(ss) >= 2:
+            v['pairs'] = [[e, ss[:1]] for e in es]
+            v['more_experiments'] = [[[e, ss[1:]] for e in es]]
+        elif len(es) >= 2:
+            v['pairs'] = [[es[0], ss]]
+            v['more_experiments'] = [[[e, ss] for e in es[1:]]]
+        else:
+            continue
+        multi.append(v)
+    out += multi
     for i, sc in enumerate(out):
         if i % 3 == 1:
             sc['conf_subdir'] = 'cfg'
@@ -658,7 +696,7 @@ def run(ck):
     check_batch(ck, corpus, base_idx=0)
     pats = pattern_scenarios()
     if quick:
-        pats = [p for i, p in enumerate(pats) if i % 2 == ck.seed % 2 or p['flags'] or p.get('prior')]
+        pats = [p for i, p in enumerate(pats) if i % 2 == ck.seed % 2 or p['flags'] or p.get('prior') or p.get('more_experiments')]
     idx = 1000
     for i in range(0, len(pats), 60):
         check_batch(ck, pats[i:i + 60], base_idx=idx + i)
